@@ -1,7 +1,7 @@
 import ast
 import inspect
 from dataclasses import is_dataclass
-from typing import Any, List
+from typing import Any, List, Optional
 
 from func_adl.util_ast import lambda_build
 
@@ -87,7 +87,11 @@ def resolve_syntatic_sugar(a: ast.AST) -> ast.AST:
             return a
 
         def convert_call_to_dict(
-            self, a: ast.Call, node: ast.AST, sig_arg_names: List[str]
+            self,
+            a: ast.Call,
+            node: ast.AST,
+            sig_arg_names: List[str],
+            n_positional: Optional[int] = None,
         ) -> ast.AST:
             """Translate a data class into a dictionary.
 
@@ -98,6 +102,14 @@ def resolve_syntatic_sugar(a: ast.AST) -> ast.AST:
             Returns:
                 ast.AST: The reformed AST as a dictionary
             """
+            if n_positional is not None and n_positional < len(a.args):
+                # The remaining parameters are keyword-only: Python's constructor refuses this
+                assert isinstance(a.func, ast.Constant)
+                raise ValueError(
+                    f"Too many positional arguments for dataclass {a.func.value}"
+                    f" - {ast.unparse(node)}."
+                )
+
             if len(sig_arg_names) < (len(a.args) + len(a.keywords)):
                 assert isinstance(a.func, ast.Constant)
                 raise ValueError(
@@ -144,8 +156,11 @@ def resolve_syntatic_sugar(a: ast.AST) -> ast.AST:
                     # We have a dataclass. Turn it into a dictionary
                     signature = inspect.signature(a.func.value)  # type: ignore
                     sig_arg_names = [p.name for p in signature.parameters.values()]
+                    n_positional = len(
+                        [p for p in signature.parameters.values() if p.kind != p.KEYWORD_ONLY]
+                    )
 
-                    return self.convert_call_to_dict(a, node, sig_arg_names)
+                    return self.convert_call_to_dict(a, node, sig_arg_names, n_positional)
 
                 elif hasattr(a.func.value, "_fields"):
                     # We have a named tuple. Turn it into a dictionary
